@@ -388,19 +388,26 @@ func (s *state) visitFunction(node *ast.FunctionNode) {
 
 	switch node.Name {
 	case "isFirst", "isLast", "index":
-		if s.scope.loopindex() == "" {
-			s.errorf("%v() may only be called inside a loop", node.Name)
+		// These functions talk about the loop whose variable is their argument,
+		// which need not be the innermost loop.
+		var loopVar string
+		if len(node.Args) == 1 {
+			if ref, ok := node.Args[0].(*ast.DataRefNode); ok && len(ref.Access) == 0 {
+				loopVar = ref.Key
+			}
 		}
-	}
-
-	switch node.Name {
-	case "isFirst":
-		// TODO: Add compile-time check that this is only called on loop variable.
-		s.js("(", s.scope.loopindex(), " == 0)")
-	case "isLast":
-		s.js("(", s.scope.loopindex(), " == ", s.scope.looplimit(), " - 1)")
-	case "index":
-		s.js(s.scope.loopindex())
+		var index, limit = s.scope.loop(loopVar)
+		if index == "" {
+			s.errorf("%v() must be applied to the variable of an enclosing loop", node.Name)
+		}
+		switch node.Name {
+		case "isFirst":
+			s.js("(", index, " == 0)")
+		case "isLast":
+			s.js("(", index, " == ", limit, " - 1)")
+		case "index":
+			s.js(index)
+		}
 	default:
 		s.errorf("unimplemented function: %v", node.Name)
 	}
